@@ -755,6 +755,55 @@ def gen_condorcet_cycles(rng, n_prof, limit=14):
                 yield c
 
 
+def shared3_moves(rule, base, rng=None, limit=None):
+    """Bucklin bases with a shared rank of three or more candidates: the lifts of EVERY candidate (whoever the evaluator
+    elects alone is the w of the relation: the premise is decided on the implementation's base result), so that a
+    defect in the splitting of shared-rank ballots that changes the base winner is still exercised by the oracle"""
+    out = []
+    ref_w = ref_winner(rule, None, base)
+    for w in all_cands(base):
+        cases = []
+        for bi, (b, s) in enumerate(base):
+            p0 = pos_of(b, w)
+            big = p0 is not None and isinstance(b[p0], dict) and len(b[p0]['set']) >= 3
+            for i in lift_positions(b, w):
+                tags = [f'{rule}:lift']
+                if big:
+                    tags += ['bucklin:lift_out_of_shared3', 'lift_out_of_shared']
+                cases.append(_mk(rule, None, base, replace_unit(base, bi, lift(b, w, i)), w, 'lift',
+                                 {'kind': 'lift', 'ballot': bi, 'pos': i}, tags))
+        cases.append(_mk(rule, None, base, add_ballot(base, [w]), w, 'new', {'kind': 'new', 'ballot': [w]}, [f'{rule}:new']))
+        if limit is not None and rng is not None and len(cases) > limit:
+            keep = [c for c in cases if 'bucklin:lift_out_of_shared3' in c['_tags']]
+            other = [c for c in cases if c not in keep]
+            cases = keep[:limit] + rng.sample(other, max(0, min(len(other), limit - len(keep[:limit]))))
+        if w == ref_w:
+            _tag_premise(cases, rule)
+        out += cases
+    return out
+
+
+def gen_bucklin_shared3(rng, n_prof):
+    for _ in range(n_prof):
+        m = rng.randint(4, 5)
+        base = []
+        for k in range(rng.randint(2, 4)):
+            cs = list(range(m))
+            rng.shuffle(cs)
+            cs = cs[:rng.randint(3, m)]
+            if k == 0 or rng.random() < 0.4:
+                g = rng.randint(3, min(4, len(cs)))
+                at = rng.randint(0, len(cs) - g)
+                b = cs[:at] + [{'set': sorted(cs[at:at + g])}] + cs[at + g:]
+            else:
+                b = cs
+            if all(b != x for x, _ in base):
+                base.append([b, str(rng.choice([1, 1, 2, 3]))])
+        for rule in ('bucklin', 'bucklin_whole'):
+            for c in shared3_moves(rule, base, rng, 6):
+                yield c
+
+
 def gen_plurality(rng, n_prof):
     for _ in range(n_prof):
         m = rng.randint(1, 5)
@@ -1105,8 +1154,14 @@ def directed_cases():
     # the wider reading of the new ballot (w first, others below): minimal cases in which the RULE ITSELF lets w lose
     for rule, param, base, w, nb in NEW_FULL_WITNESSES:
         c = _mk(rule, param, base, add_ballot(base, nb), w, 'new_full', {'kind': 'new', 'ballot': nb},
-                [f'{rule}:new_full', f'{rule}:premise', 'directed', 'new_full_rule_level_failure'])
+                [f'{rule}:new_full', f'{rule}:premise', 'directed', 'new_full_rule_level_failure', 'bucklin:lift_out_of_shared3'])
         out.append(c)
+    # Bucklin: the winner is lifted out of a THREE-way shared rank (W=0, X=1, Y=2, Z=3); every candidate's lifts are issued
+    base = [[[{'set': [0, 1, 2]}, 3], '1'], [[3, 0, 1, 2], '3'], [[0, 1, 2, 3], '1']]
+    for rule in ('bucklin', 'bucklin_whole'):
+        for c in shared3_moves(rule, base):
+            c['_tags'] += ['directed']
+            out.append(c)
     # highest averages: exact quotient tie at the last seat, cap binding, previous gains
     cfg = {'divisor': 'd_hondt', 'first_coef': None, 'votes': [[0, '6'], [1, '3'], [2, '3']], 'n': 3, 'prev': [], 'max': []}
     out += [dict(c, _tags=c['_tags'] + ['directed', 'ha:tie_in_base']) for c in ha_pairs(cfg, [])]
@@ -1128,6 +1183,8 @@ def generate(rng, tier):
         for c in gen_ranked(rng, rule, 90 if quick else 2500):
             yield c
     for c in gen_condorcet_cycles(rng, 25 if quick else 600):
+        yield c
+    for c in gen_bucklin_shared3(rng, 40 if quick else 800):
         yield c
     for c in gen_approval(rng, 150 if quick else 3000):
         yield c
@@ -1170,14 +1227,14 @@ def exhaustive_cases():
                     yield c
 
 
-NAME_MODES = ['str', 'int0', 'empty0']
+NAME_MODES = ['str', 'int0', 'empty0', 'person']
 REQUIRED_COUNTERS = (['ha:house', 'ha:votes', 'ha:caps', 'ha:prev_gains', 'ha:tie_in_base', 'plurality:new',
                       'plurality:switch', 'plurality:premise', 'approval:approve', 'approval:new', 'approval:premise',
                       'score_sum:raise', 'score_sum:new', 'score_sum:premise', 'score_sum:raise_to_unscored_value',
                       'score_sum:unscored_None', 'score_sum:unscored_0', 'score_sum:unscored_1', 'score_sum:unscored_2',
                       'score_sum:unscored_5', 'score_sum:unscored_min', 'bucklin_two_shared_ranks', 'minimax_unbeaten_after_move',
                       'bucklin_second_round', 'bucklin_split_collision', 'lift_unranked', 'lift_out_of_shared', 'unit_of_heavier_ballot',
-                      'merges_with_existing', 'fractional_weight', 'new_full_rule_level_failure']
+                      'merges_with_existing', 'fractional_weight', 'new_full_rule_level_failure', 'bucklin:lift_out_of_shared3']
                      + [f'{r}:no_cw_4plus' for r in ['copeland', 'minimax_wv', 'minimax_margins', 'schulze']]
                      + [f'{r}:new_full' for r in ['bucklin', 'bucklin_whole', 'copeland', 'minimax_wv', 'minimax_margins', 'schulze']]
                      + [f'{r}:{k}' for r in RANKED_RULES for k in ('lift', 'new', 'premise')])
@@ -1189,7 +1246,9 @@ RULE = ('highest averages: 1-5 parties, five divisors (+ modified first coeffici
         'admissible new ballots (for Bucklin/Copeland/minimax/Schulze the bullet ballot and, kind new_full, w followed by a strict '
         'order of other candidates); Copeland/minimax/Schulze additionally on majority cycles of 4-6 candidates without a Condorcet '
         'winner (rotations of one order with unequal weights plus up to 3 extra ballots) with a strict first in the rule\'s own '
-        'relation, up to 14 lifts per profile; thorough tier adds the exhaustive scopes (<=3 parties x votes<=4 x n<=5 x 5 divisors; '
+        'relation, up to 14 lifts per profile; Bucklin (both variants) additionally on 4-5 candidate bases with a shared rank of '
+        'three or four candidates, the lifts of EVERY candidate (the premise is decided on the implementation\'s base result); '
+        'thorough tier adds the exhaustive scopes (<=3 parties x votes<=4 x n<=5 x 5 divisors; '
         '<=3 candidates x <=3 strict ballots x 10 ranked rules, every lift and every new ballot). Non-trivial = base '
         'result is the sole winner w (winner rules) / at least two parties and a non-error base (ha).')
 EXHAUSTIVE = {'thorough': True}
